@@ -23,6 +23,8 @@ func init() {
 				Doc: "Broken input is an error, not a panic: zlib.NewReader returns a nil reader together with its error, so any use before the check - including `defer r.Close()` - dereferences nil when the 2-byte header is malformed."},
 			{ID: "C16.d", Template: "T-TYPESTATE", Required: true, Run: ruleC13aReaders,
 				Doc: "The pooled reader is released exactly once and not before the entity was read (C13.a): a reader released by a helper is handed to the next request while this one still decodes from it."},
+			{ID: "C16.e", Template: "T-OWN", Required: true, Run: ruleNoCompressorCopy,
+				Doc: "Decompressors handed out by the providers are distinct objects, never shallow copies of one reader (same obligations as C13.f): otherwise a gzip body is decoded with a flate state another request is using."},
 		},
 	})
 }
